@@ -85,6 +85,17 @@ def build_tables(case):
             remap = {sc: pairs[i] for i, sc in enumerate(scans) if i < len(pairs)}
             df["ExpMass"] = [remap[sc][1] if sc in remap else float(m) for sc, m in zip(df["ScanNr"], df["ExpMass"])]
             df["ScanNr"] = [remap[sc][0] if sc in remap else sc for sc in df["ScanNr"]]
+        elif case.get("collide") and "filename" in tuple(case["optional"]):
+            # the same with a text column in the key: ("r1", 1) / ("r", 11), ("r12", 3) / ("r1", 23); the remaining
+            # key columns of these spectra are made equal, so only file and scan tell them apart
+            pairs = [("r1", 1), ("r", 11), ("r12", 3), ("r1", 23)]
+            scans = sorted(set(df["ScanNr"]))
+            remap = {sc: pairs[i] for i, sc in enumerate(scans) if i < len(pairs)}
+            df["filename"] = [remap[sc][0] if sc in remap else f for sc, f in zip(df["ScanNr"], df["filename"])]
+            for col in ("ExpMass", "ret_time"):
+                if col in df.columns:
+                    df[col] = [7 if sc in remap else v for sc, v in zip(df["ScanNr"], df[col])]
+            df["ScanNr"] = [remap[sc][1] if sc in remap else sc for sc in df["ScanNr"]]
         if case.get("tie_mode") == "cross":
             # ties only ACROSS spectra: 8 * (coarse value) + position of the row inside its spectrum
             pos, cnt = [], {}
